@@ -116,7 +116,7 @@ func (e *env) abs(s string) string {
 	return a
 }
 
-func (e *env) mint(label, kind string, next time.Time, delta bool, revoked int) *crlObj {
+func (e *env) mint(label, kind string, next time.Time, delta bool, revoked int, exts ...pkix.Extension) *crlObj {
 	e.serial++
 	tpl := &x509.RevocationList{Number: big.NewInt(e.serial)}
 	if !next.IsZero() {
@@ -140,6 +140,7 @@ func (e *env) mint(label, kind string, next time.Time, delta bool, revoked int) 
 		v, _ := asn1.Marshal(big.NewInt(1))
 		tpl.ExtraExtensions = []pkix.Extension{{Id: asn1.ObjectIdentifier{2, 5, 29, 27}, Critical: true, Value: v}}
 	}
+	tpl.ExtraExtensions = append(tpl.ExtraExtensions, exts...)
 	der, err := x509.CreateRevocationList(rand.Reader, tpl, e.issuer, e.key)
 	if err != nil {
 		panic(fmt.Sprintf("c15: CreateRevocationList %s: %v", label, err))
@@ -156,6 +157,58 @@ func (e *env) mint(label, kind string, next time.Time, delta bool, revoked int) 
 		c.parsed = &x509.RevocationList{Raw: cloneBytes(rl.Raw), NextUpdate: rl.NextUpdate}
 	}
 	return c
+}
+
+// ---------- extensions that carry URLs ----------
+
+func mustDER(v any) []byte {
+	b, err := asn1.Marshal(v)
+	if err != nil {
+		panic(err)
+	}
+	return b
+}
+
+// GeneralNames content: uniformResourceIdentifier [6] IA5String, one per uri
+func uriNames(uris []string) []byte {
+	var out []byte
+	for _, u := range uris {
+		out = append(out, mustDER(asn1.RawValue{Class: asn1.ClassContextSpecific, Tag: 6, Bytes: []byte(u)})...)
+	}
+	return out
+}
+
+// DistributionPointName: [0] { fullName [0] GeneralNames }
+func dpName(uris []string) []byte {
+	full := mustDER(asn1.RawValue{Class: asn1.ClassContextSpecific, Tag: 0, IsCompound: true, Bytes: uriNames(uris)})
+	return mustDER(asn1.RawValue{Class: asn1.ClassContextSpecific, Tag: 0, IsCompound: true, Bytes: full})
+}
+
+// IssuingDistributionPoint (2.5.29.28, critical): SEQUENCE { distributionPoint [0] DistributionPointName }
+func extIDP(uris ...string) pkix.Extension {
+	return pkix.Extension{Id: asn1.ObjectIdentifier{2, 5, 29, 28}, Critical: true,
+		Value: mustDER(asn1.RawValue{Class: asn1.ClassUniversal, Tag: asn1.TagSequence, IsCompound: true, Bytes: dpName(uris)})}
+}
+
+// FreshestCRL (2.5.29.46): SEQUENCE OF DistributionPoint { distributionPoint [0] DistributionPointName }
+func extFreshest(uris ...string) pkix.Extension {
+	var dps []byte
+	for _, u := range uris {
+		dps = append(dps, mustDER(asn1.RawValue{Class: asn1.ClassUniversal, Tag: asn1.TagSequence, IsCompound: true, Bytes: dpName([]string{u})})...)
+	}
+	return pkix.Extension{Id: asn1.ObjectIdentifier{2, 5, 29, 46},
+		Value: mustDER(asn1.RawValue{Class: asn1.ClassUniversal, Tag: asn1.TagSequence, IsCompound: true, Bytes: dps})}
+}
+
+// AuthorityInfoAccess (1.3.6.1.5.5.7.1.1): SEQUENCE OF { accessMethod caIssuers, accessLocation [6] uri }
+func extAIA(uris ...string) pkix.Extension {
+	var ads []byte
+	for _, u := range uris {
+		ad := append(mustDER(asn1.ObjectIdentifier{1, 3, 6, 1, 5, 5, 7, 48, 2}), uriNames([]string{u})...)
+		ads = append(ads, mustDER(asn1.RawValue{Class: asn1.ClassUniversal, Tag: asn1.TagSequence, IsCompound: true, Bytes: ad})...)
+	}
+	return pkix.Extension{Id: asn1.ObjectIdentifier{1, 3, 6, 1, 5, 5, 7, 1, 1},
+		Value: mustDER(asn1.RawValue{Class: asn1.ClassUniversal, Tag: asn1.TagSequence, IsCompound: true, Bytes: ads})}
 }
 
 // add puts a CRL into the pool: a Coq name for its Raw (the stand-in for a big
@@ -273,15 +326,16 @@ type hop struct {
 }
 
 type hcase struct {
-	Family  string   `json:"family"`
-	Ops     []*hop   `json:"ops"`
-	Files   []string `json:"final_files,omitempty"`
-	Outside []string `json:"outside_effects,omitempty"`
-	Writes  []string `json:"write_destinations,omitempty"`
-	TempsOK bool     `json:"temps_ok"`
-	Shared  bool     `json:"same_bundle_objects_reused"` // Sets of equal content pass the SAME *Bundle / *RevocationList objects
-	Frame   []string `json:"caller_owned_objects_mutated,omitempty"`
-	Panics  []string `json:"panics,omitempty"`
+	Family    string   `json:"family"`
+	Ops       []*hop   `json:"ops"`
+	Files     []string `json:"final_files,omitempty"`
+	Outside   []string `json:"outside_effects,omitempty"`
+	Writes    []string `json:"write_destinations,omitempty"`
+	TempsOK   bool     `json:"temps_ok"`
+	Shared    bool     `json:"same_bundle_objects_reused"` // Sets of equal content pass the SAME *Bundle / *RevocationList objects
+	Frame     []string `json:"caller_owned_objects_mutated,omitempty"`
+	RootFrame []string `json:"root_entries_changed_by_an_operation_on_another_url,omitempty"`
+	Panics    []string `json:"panics,omitempty"`
 }
 
 type panicError struct{ v any }
@@ -462,11 +516,85 @@ func snapshot(caseDir, root string) map[string]snapEntry {
 	return m
 }
 
+// listRoot fingerprints every entry of the cache root (name -> "dir" | size and
+// digest of the content; entries above 1 MiB by size, modification time and the
+// digest of their first and last 64 KiB).
+func listRoot(root string) map[string]string {
+	m := map[string]string{}
+	ents, _ := os.ReadDir(root)
+	for _, de := range ents {
+		p := filepath.Join(root, de.Name())
+		if de.IsDir() {
+			m[de.Name()] = "dir"
+			continue
+		}
+		info, err := os.Lstat(p)
+		if err != nil {
+			m[de.Name()] = "unreadable: " + err.Error()
+			continue
+		}
+		if info.Mode()&os.ModeType != 0 {
+			m[de.Name()] = "special " + info.Mode().String()
+			continue
+		}
+		if info.Size() > 1<<20 {
+			h := sha256.New()
+			if f, err := os.Open(p); err == nil {
+				buf := make([]byte, 1<<16)
+				n, _ := f.Read(buf)
+				h.Write(buf[:n])
+				n, _ = f.ReadAt(buf, info.Size()-int64(len(buf)))
+				h.Write(buf[:n])
+				f.Close()
+			}
+			m[de.Name()] = fmt.Sprintf("%d bytes mtime %d ends %x", info.Size(), info.ModTime().UnixNano(), h.Sum(nil)[:8])
+			continue
+		}
+		b, _ := os.ReadFile(p)
+		h := sha256.Sum256(b)
+		m[de.Name()] = fmt.Sprintf("%d bytes sha256 %x", len(b), h[:12])
+	}
+	return m
+}
+
 func qurl(u string) string {
 	if len(u) > 120 {
 		return fmt.Sprintf("%q...(%d bytes, sha256 %s)", u[:100], len(u), keyOf(u)[:12])
 	}
 	return fmt.Sprintf("%q", u)
+}
+
+// rootFrame compares two listings of the cache root taken before and after one operation.
+func (e *env) rootFrame(hc *hcase, idx int, o *hop, before, after map[string]string) {
+	own := ""
+	if o.K != "get" {
+		own = keyOf(o.U)
+	}
+	var names []string
+	for n := range before {
+		names = append(names, n)
+	}
+	for n := range after {
+		if _, ok := before[n]; !ok {
+			names = append(names, n)
+		}
+	}
+	sort.Strings(names)
+	for _, n := range names {
+		b, inB := before[n]
+		a, inA := after[n]
+		if n == own || (inB && inA && a == b) {
+			continue
+		}
+		what := "modified"
+		if !inB {
+			what = "created"
+		} else if !inA {
+			what = "removed"
+		}
+		hc.RootFrame = append(hc.RootFrame, fmt.Sprintf("op %d: %s(%s) %s the root entry %s (before: %q, after: %q); the key of its url is %s",
+			idx, o.K, qurl(o.U), what, n, b, a, keyOf(o.U)))
+	}
 }
 
 // execute runs one history on the real FileCache and returns the Gallina term
@@ -504,10 +632,19 @@ func (e *env) execute(id int64, sb string, hc *hcase) string {
 
 	hc.Shared = id%2 == 0
 	sharedBundles := map[string]*corecrl.Bundle{}
+	listing := listRoot(root)
 	for opIdx, o := range hc.Ops {
 		o.UQ = qurl(o.U)
 		shaFacts[o.U] = true
 		path := filepath.Join(root, keyOf(o.U))
+		if opIdx > 0 {
+			// full-root frame (C15_set_frame, C15_isolated_files, C15_get_changes_nothing): the
+			// previous operation may have changed the entry at the key of ITS url only (a Get: nothing)
+			prev := hc.Ops[opIdx-1]
+			now := listRoot(root)
+			e.rootFrame(hc, opIdx-1, prev, listing, now)
+			listing = now
+		}
 		switch o.K {
 		case "set":
 			var b *corecrl.Bundle
@@ -678,6 +815,9 @@ func (e *env) execute(id int64, sb string, hc *hcase) string {
 			}
 			o.resTerm = func(S func(string) string) string { return "RNone" }
 		}
+	}
+	if n := len(hc.Ops); n > 0 {
+		e.rootFrame(hc, n-1, hc.Ops[n-1], listing, listRoot(root))
 	}
 	// final listing of the root
 	type fent struct {
@@ -880,7 +1020,7 @@ func (e *env) label(b []byte) string {
 func runC15(a *Args) error {
 	rng := NewRng(a.Seed)
 	w := NewCaseWriter(a, "C15", "", "case", "run")
-	w.Rule = "histories of FileCache.Set / Get and environment operations (corrupt, remove, directory in the way) on a fresh cache directory, run on the real verifier/crl.FileCache; families: expiry matrix (base x delta in fresh / expired / zero NextUpdate / not a CRL / nil), isolation scripts over all pairs of near-identical urls, hostile urls (traversal, empty, the file name of another url, 5 kB) with decoy entries planted outside the root, ~70 kinds of corruption of a stored entry (truncation at every length class, bit flips, swapped fields, foreign JSON, wrong types, bad base64, damaged DER), duplicate JSON members with the odd one first / middle / last and rarely used legal JSON syntax (escaped keys and characters, case-folded keys, CR LF inside base64, pretty printing), nil bundles and directories in the way, overwrite of every ordered pair of stored bundles (same length, older/newer, with/without delta), scripts on ONE long-lived FileCache object and on TWO objects sharing the root whose expected answer changes between calls (A then B, miss then hit, hit then miss, fail then pass), random histories (half of them spread over the two objects) of 3..12 operations followed by a sweep of Gets, and entries that expire while the history runs (real clock), and the freshness matrix repeated over parts of about 0.2 / 0.5 / 5 kB (fresh, expired, zero NextUpdate at every size, base and delta independently), and a size ladder of Set / Get round trips (two urls, two objects, overwrite by a small bundle) with bundles as large as the library may fetch: raw DER of 1 and 8 MiB and an expired 8 MiB delta in the quick tier, 20 / 26 / 31 MiB bases and 14 MiB base + 14 MiB delta in the thorough tier (35 bytes per revoked entry, up to 930 000 entries). non-trivial = some Get addresses a url that was stored or corrupted earlier in the history, or the history touches a hostile url; distinct = distinct (family, urls, operations, CRL kinds, corruption, results) sequences"
+	w.Rule = "histories of FileCache.Set / Get and environment operations (corrupt, remove, directory in the way) on a fresh cache directory, run on the real verifier/crl.FileCache; families: expiry matrix (base x delta in fresh / expired / zero NextUpdate / not a CRL / nil), isolation scripts over all pairs of near-identical urls, hostile urls (traversal, empty, the file name of another url, 5 kB) with decoy entries planted outside the root, ~70 kinds of corruption of a stored entry (truncation at every length class, bit flips, swapped fields, foreign JSON, wrong types, bad base64, damaged DER), duplicate JSON members with the odd one first / middle / last and rarely used legal JSON syntax (escaped keys and characters, case-folded keys, CR LF inside base64, pretty printing), nil bundles and directories in the way, overwrite of every ordered pair of stored bundles (same length, older/newer, with/without delta), scripts on ONE long-lived FileCache object and on TWO objects sharing the root whose expected answer changes between calls (A then B, miss then hit, hit then miss, fail then pass), random histories (half of them spread over the two objects) of 3..12 operations followed by a sweep of Gets, and entries that expire while the history runs (real clock), and the freshness matrix repeated over parts of about 0.2 / 0.5 / 5 kB (fresh, expired, zero NextUpdate at every size, base and delta independently), and a size ladder of Set / Get round trips (two urls, two objects, overwrite by a small bundle) with bundles as large as the library may fetch: raw DER of 1 and 8 MiB and an expired 8 MiB delta in the quick tier, 20 / 26 / 31 MiB bases and 14 MiB base + 14 MiB delta in the thorough tier (35 bytes per revoked entry, up to 930 000 entries), and CRLs whose own extensions name urls (Issuing Distribution Point with the url of the Set / another url of the history / a url never stored / https, ldap and upper-case scheme URIs / several URIs; Freshest CRL; Authority Information Access; all three; expired; as delta) stored under one url while the urls they name are read, stored before and after, and removed; after EVERY operation of EVERY history the whole cache root is listed and compared with the listing before it: only the entry at the key of the url of the operation may differ (nothing after a Get). non-trivial = some Get addresses a url that was stored or corrupted earlier in the history, or the history touches a hostile url; distinct = distinct (family, urls, operations, CRL kinds, corruption, results) sequences"
 	w.Assumptions = []string{
 		"crypto/sha256 has no collision among the urls of a history (checked per case inside Coq: wf)",
 		"encoding/json + encoding/base64 decode what they encoded (checked per Set inside Coq: wf); x509.ParseRevocationList is an oracle giving (Raw, NextUpdate) | error for every byte string met (it ignores bytes after the first DER element, so Raw may be a proper prefix of a stored part)",
@@ -977,6 +1117,21 @@ func runC15(a *Args) error {
 			e.define(fmt.Sprintf("h%d_", n-1), string(hh[:]))
 		}
 	}
+
+	// CRLs whose own content names urls (family J): an Issuing Distribution Point, a Freshest CRL
+	// or an Authority Information Access extension must never choose a cache key
+	iu, iv, iw := near[0], near[3], near[20] // the url of the Set, another url of the history, a url never stored
+	add(e.mint("XS", "F", e.t0.Add(5*h), false, 0, extIDP(iu)))
+	add(e.mint("XO", "F", e.t0.Add(5*h), false, 1, extIDP(iv)))
+	add(e.mint("XN", "F", e.t0.Add(5*h), false, 0, extIDP(iw)))
+	add(e.mint("XH", "F", e.t0.Add(5*h), false, 0, extIDP("https://crl.example.com/CA.crl", "ldap://crl.example.com/cn=ca?certificateRevocationList;binary", "HTTP://crl.example.com/ca.crl")))
+	add(e.mint("XM", "F", e.t0.Add(5*h), false, 2, extIDP(iu, iv, iw, "http://crl.example.com/extra.crl")))
+	add(e.mint("XF", "F", e.t0.Add(5*h), false, 0, extFreshest(iv, iw)))
+	add(e.mint("XA", "F", e.t0.Add(5*h), false, 0, extAIA(iv, iw)))
+	add(e.mint("XALL", "F", e.t0.Add(5*h), false, 0, extIDP(iv), extFreshest(iw), extAIA(iv)))
+	add(e.mint("XE", "E", e.t0.Add(-5*h), false, 0, extIDP(iv, iw)))
+	add(e.mint("XD", "F", e.t0.Add(5*h), true, 0, extIDP(iv), extFreshest(iw)))
+	add(e.mint("XDE", "E", e.t0.Add(-5*h), true, 0, extIDP(iv, iw)))
 
 	sb := filepath.Join(a.Out, "sb")
 	if err := os.MkdirAll(sb, 0o755); err != nil {
